@@ -23,6 +23,7 @@
 #include "scientificinfo.h"
 
 #define PCACONVERGENCE 1e-10
+#define PCAMAXITER 100000 /* upper bound of NIPALS iterations per component */
 
 /**
  * PCA model data structure.
